@@ -578,6 +578,13 @@ def coq_glue(ctx):
         return
     m = re.search(r'\((?:\./)?([A-Za-z0-9_]+\.v):\d+\)', g_msg or '')
     culprit = m.group(1) if m else None
+    if culprit is None and getattr(ctx, 'gen_dependent', False):
+        # vlib rebuilt the cone against the last known-good Generated.v: the file that did not build against the
+        # regenerated one is named in the first error
+        m = re.search(r'File "(?:\./)?([A-Za-z0-9_]+\.v)"', getattr(ctx, 'gen_first_error', '') or '')
+        culprit = m.group(1) if m else None
+        if culprit in MY_COQ_FILES and not any(g.split()[1].startswith(('cfg_', 'genx_cfg')) for g in ctx.gen_broken if len(g.split()) > 1):
+            culprit = None
     if core_broken:
         ctx.proof_broken = core_broken
         ctx.cov['obligations'] = (core['obligations'] or 0) + g_obl
